@@ -123,7 +123,7 @@ pub(crate) fn parse_directive(jsx_attr: &JSXAttr, is_component: bool) -> Directi
         modifiers = Some(splitted.map(Atom::from).collect());
         value = match &jsx_attr.value {
             // `v-dir="text"`: the string is the value
-            Some(JSXAttrValue::Lit(lit)) => Expr::Lit(lit.clone()),
+            Some(JSXAttrValue::Lit(Lit::Str(str))) => string_value(str),
             // `v-dir` without a value
             _ => undefined(),
         };
@@ -155,6 +155,11 @@ pub(crate) fn parse_directive(jsx_attr: &JSXAttr, is_component: bool) -> Directi
     })
 }
 
+/// A string attribute value, cleaned like the value of a plain string attribute.
+fn string_value(str: &Str) -> Expr {
+    Expr::Lit(Lit::Str(quote_str!(crate::util::transform_text(&str.value))))
+}
+
 fn undefined() -> Expr {
     Expr::Unary(UnaryExpr {
         span: DUMMY_SP,
@@ -182,7 +187,7 @@ fn parse_modifiers(exprs: &[Option<ExprOrSpread>]) -> BTreeSet<Atom> {
 
 fn parse_v_text_directive(jsx_attr: &JSXAttr) -> Directive {
     let expr = match &jsx_attr.value {
-        Some(JSXAttrValue::Lit(lit)) => Expr::Lit(lit.clone()),
+        Some(JSXAttrValue::Lit(Lit::Str(str))) => string_value(str),
         Some(JSXAttrValue::JSXExprContainer(JSXExprContainer {
             expr: JSXExpr::Expr(expr),
             ..
@@ -195,7 +200,7 @@ fn parse_v_text_directive(jsx_attr: &JSXAttr) -> Directive {
                 (**expr).clone()
             }
         }
-        None => {
+        _ => {
             HANDLER.with(|handler| {
                 handler.span_err(
                     jsx_attr.span,
@@ -207,7 +212,6 @@ fn parse_v_text_directive(jsx_attr: &JSXAttr) -> Directive {
                 value: true,
             }))
         }
-        _ => unreachable!(),
     };
 
     Directive::Text(expr)
@@ -215,7 +219,7 @@ fn parse_v_text_directive(jsx_attr: &JSXAttr) -> Directive {
 
 fn parse_v_html_directive(jsx_attr: &JSXAttr) -> Directive {
     let expr = match &jsx_attr.value {
-        Some(JSXAttrValue::Lit(lit)) => Expr::Lit(lit.clone()),
+        Some(JSXAttrValue::Lit(Lit::Str(str))) => string_value(str),
         Some(JSXAttrValue::JSXExprContainer(JSXExprContainer {
             expr: JSXExpr::Expr(expr),
             ..
@@ -228,7 +232,7 @@ fn parse_v_html_directive(jsx_attr: &JSXAttr) -> Directive {
                 (**expr).clone()
             }
         }
-        None => {
+        _ => {
             HANDLER.with(|handler| {
                 handler.span_err(
                     jsx_attr.span,
@@ -240,7 +244,6 @@ fn parse_v_html_directive(jsx_attr: &JSXAttr) -> Directive {
                 value: true,
             }))
         }
-        _ => unreachable!(),
     };
 
     Directive::Html(expr)
